@@ -13,7 +13,7 @@ from simbox.normalize import results_by_codemod
 from simbox.util import dec, enc
 
 CONTENT_FAULTS = ["bad-utf8", "nul-bytes", "syntax-error", "empty", "latin1-cookie"]
-SEAM_FAULTS = ["vanish-before-read", "read-eio", "read-eacces", "transform-raise", "node-raise"]
+SEAM_FAULTS = ["vanish-before-read", "read-eio", "read-eacces", "transform-raise", "node-raise", "codegen-raise"]
 XML_FAULTS = ["xml-malformed", "xml-truncated", "bad-utf8", "empty"]
 
 PIPELINES = {
@@ -113,11 +113,13 @@ class C10(Check):
                                  "content_faults": [{"kind": "fifo", "pos": pos, "donor": 0}], "seam_faults": [],
                                  "exec": {"sched": {"seed": pos, "policy": "fifo", "line_p": 0.0}, "workers": 1 + pos}})
             for fk in SEAM_FAULTS:
-                if p == "xml" and fk in ("transform-raise", "node-raise"):
+                if p == "xml" and fk in ("transform-raise", "node-raise", "codegen-raise"):
                     continue
                 for pos in range(3):
                     for k in range(2):
                         nths = [1 if fk != "node-raise" else [1, 4, 12][pos]]
+                        if fk == "codegen-raise":
+                            nths = [0]  # every transformer of a chained pipeline hands back an unrenderable tree
                         if fk == "transform-raise" and p == "defectdojo":
                             nths.append(2)  # the second transformer of a chained pipeline raises after the first one acted
                         for nth in nths:
@@ -158,7 +160,7 @@ class C10(Check):
             else:
                 fk = rng.choice(SEAM_FAULTS)
                 seam.append({"kind": fk, "file_pos": rng.randrange(len(files)), "codemod_index": rng.randrange(len(cids)),
-                             "nth": rng.choice([1, 1, 2]) if fk == "transform-raise" else (1 if fk != "node-raise" else rng.choice([1, 3, 9, 30]))})
+                             "nth": rng.choice([1, 1, 2]) if fk == "transform-raise" else (0 if fk == "codegen-raise" else 1 if fk != "node-raise" else rng.choice([1, 3, 9, 30]))})
         # at most one seam fault per file (keeps the narrow relaxation well defined)
         seen = set()
         seam = [s for s in seam if not (s["file_pos"] in seen or seen.add(s["file_pos"]))]
@@ -213,7 +215,7 @@ class C10(Check):
             seen_targets.add(target)
             zp = "<T>/" + target
             op = {"vanish-before-read": "open-read", "read-eio": "open-read", "read-eacces": "open-read",
-                  "transform-raise": "transform", "node-raise": "node"}[sf["kind"]]
+                  "transform-raise": "transform", "node-raise": "node", "codegen-raise": "transform"}[sf["kind"]]
             plan.append({"op": op, "path": zp, "codemod_index": sf["codemod_index"], "nth": sf["nth"], "kind": sf["kind"]})
             seam_info.append({"file": target, "k": sf["codemod_index"], "kind": sf["kind"]})
         return world_ref, world_fault, argv, plan, {"bad": bad, "seam": seam_info, "meta": meta2, "paths": paths}
@@ -315,6 +317,8 @@ class C10(Check):
             cid = ids[s["k"]]
             res = (rf.get(cid) or [{}])[0]
             failed = [x for x in (res.get("failedFiles") or []) if x.endswith("/" + s["file"])]
+            if s["kind"] == "codegen-raise" and s["file"] not in [c.get("path") for c in ((rr.get(cid) or [{}])[0].get("changeset") or [])]:
+                continue  # the unrenderable tree is only rendered when the codemod has a change to report for that file
             if not failed:
                 add("bad-file-not-reported-failed", s["kind"], {"file": s["file"], "codemod": cid})
             if sast:
